@@ -57,17 +57,85 @@ class Result_:
         self.too_big = False
 
 
+def _stable(o, depth=0):
+    """an origin tree that denotes one immutable value (no multiply-defined local inside)"""
+    if not isinstance(o, tuple) or depth > 30:
+        return True
+    if o[0] == "local":
+        return False
+    return all(_stable(x, depth + 1) if isinstance(x, tuple) else
+               (all(_stable(y, depth + 1) for y in x) if isinstance(x, list) else True)
+               for x in o[1:])
+
+
+def _disc_key(body, du, bb, local):
+    """identity of the (immutable, single-definition) value whose discriminant is held by
+    `local` (defined in block bb)"""
+    if du is None:
+        return None
+    for s in body.blocks[bb].stmts:
+        if s.kind == "=" and not s.place.proj and s.place.local == local and s.rv.kind == "disc":
+            r = du.root_local(s.rv.place)
+            if r is not None:
+                return repr(r)
+            o = du.origin_place(s.rv.place)
+            while o and o[0] in ("ref", "deref"):
+                o = o[1]
+            if _stable(o):
+                return repr(o)
+    return None
+
+
+def dominating_facts(body, du, bb):
+    """discriminant values known at block bb from the switches that dominate it"""
+    facts = {}
+    for sb, blk in enumerate(body.blocks):
+        t = blk.term
+        if sb == bb or t.kind != "switch" or not body.dominates(sb, bb):
+            continue
+        d = t.discr
+        if d.kind not in ("copy", "move") or d.place.proj:
+            continue
+        key = _disc_key(body, du, sb, d.place.local)
+        if key is None:
+            continue
+        vals = [v for v, tgt in t.arms if tgt == bb or (body.dominates(tgt, bb) and tgt != sb)]
+        # an arm target may be shared; require that the other arms cannot reach bb without sb
+        if len(vals) >= 1 and not (t.otherwise == bb or body.dominates(t.otherwise, bb)):
+            others = [tgt for v, tgt in t.arms if v not in vals] + [t.otherwise]
+            if not any(_reach_avoiding(body, o, bb, sb) for o in others):
+                facts[key] = frozenset(vals)
+    return facts
+
+
+def _reach_avoiding(body, start, target, avoid):
+    seen = set()
+    q = [start]
+    while q:
+        b = q.pop()
+        if b in seen or b == avoid:
+            continue
+        seen.add(b)
+        if b == target:
+            return True
+        q.extend(body.succs(b))
+    return False
+
+
 def explore(body, start_bb, carriers, stop_at=None, track_ret=True, limit=6000, inject=None,
-            avoid=()):
-    """carriers: dict local -> Carrier (state at entry of start_bb). Returns Result_."""
+            avoid=(), du=None, facts=None):
+    """carriers: dict local -> Carrier (state at entry of start_bb). Returns Result_.
+    With `du` (a DefUse) the exploration is also sensitive to repeated tests of the same
+    immutable enum value: once a switch on its discriminant took an arm, later switches on the
+    same value follow the same arm (`facts` seeds what is known at the start)."""
     res = Result_()
     seen = set()
-    work = [(start_bb, carriers, None)]
+    work = [(start_bb, carriers, None, tuple(sorted((facts or {}).items())))]
     while work:
-        bb, car, rv = work.pop()
+        bb, car, rv, fk = work.pop()
         if bb in avoid:
             continue
-        key = (bb, tuple(sorted((l, c.key()) for l, c in car.items())), rv)
+        key = (bb, tuple(sorted((l, c.key()) for l, c in car.items())), rv, fk)
         if key in seen:
             continue
         seen.add(key)
@@ -152,9 +220,29 @@ def explore(body, start_bb, carriers, stop_at=None, track_ret=True, limit=6000, 
                 if any(n not in [v for v, _ in t.arms] for n in nums):
                     nxt.append(t.otherwise)
             else:
+                dk = None
+                if d.kind in ("copy", "move") and not d.place.proj:
+                    dk = _disc_key(body, du, bb, d.place.local)
+                if dk is not None:
+                    known = dict(fk)
+                    if dk in known:
+                        allowed = known[dk]
+                        nxt2 = [(tgt, fk) for v, tgt in t.arms if v in allowed]
+                        if any(v not in [a for a, _ in t.arms] for v in allowed):
+                            nxt2.append((t.otherwise, fk))
+                    else:
+                        nxt2 = []
+                        for v, tgt in t.arms:
+                            k2 = dict(known)
+                            k2[dk] = frozenset({v})
+                            nxt2.append((tgt, tuple(sorted(k2.items()))))
+                        nxt2.append((t.otherwise, fk))
+                    for s_, f2 in nxt2:
+                        work.append((s_, car, rv, f2))
+                    continue
                 nxt = t.succs()
             for s_ in nxt:
-                work.append((s_, car, rv))
+                work.append((s_, car, rv, fk))
             continue
         if t.kind in ("call", "tailcall"):
             res.calls.append((bb, t))
@@ -170,6 +258,9 @@ def explore(body, start_bb, carriers, stop_at=None, track_ret=True, limit=6000, 
                     argc.append(None)
             new = None
             a0 = argc[0] if argc else None
+            if a0 is not None and a0.kind == "enum" and a0.val <= frozenset({"Err", "None"}) and \
+                    re.search(r"core::(option::Option::<T>|result::Result::<T, E>)::(unwrap|expect)$", name):
+                continue      # unwrap/expect of a failure diverges (panic), nothing follows
             if a0 is not None and a0.kind == "enum":
                 if name.endswith(TRY_BRANCH):
                     m = {"Ok": "Continue", "Some": "Continue", "Err": "Break", "None": "Break"}
@@ -216,10 +307,10 @@ def explore(body, start_bb, carriers, stop_at=None, track_ret=True, limit=6000, 
             elif t.dest is not None and t.dest.local == 0 and track_ret:
                 rv = "unk"
             if t.target is not None:
-                work.append((t.target, car, rv))
+                work.append((t.target, car, rv, fk))
             continue
         for s_ in t.succs():
-            work.append((s_, car, rv))
+            work.append((s_, car, rv, fk))
     return res
 
 
